@@ -10,7 +10,8 @@ EXPLANATION = (
     "is_infeasible = exactly the four infeasible variants; (R3) unscale normalises by kappa on the infeasible "
     "branch with one common factor for x,s,z; (R4/R5) units: certificate vectors and res_*_inf are free of d,e; "
     "partial residual definitions (signed forms rx_inf = -A'z, rz_inf = Ax + s, Px); (R6) the units premises (see C01.R9). The c-inconsistency of the infeasibility comparisons is a recorded known "
-    "finding. NOT decided: z in K*, s in K (numerics).")
+    "finding. NOT decided: z in K*, s in K (numerics)."
+    " (R10) the cone list the verdict refers to is the user's: only nonnegative cones and one-dimensional SOC / PSD cones start or continue a merged run (C05.R5 re-run).")
 ASSUMPTIONS = [
     'rustc MIR construction and trait resolution are correct',
     'algebra primitives have their documented meaning',
@@ -39,6 +40,10 @@ def run(ctx, rep, tier):
     from . import c09
     for cfg in CONFIGS:
         c09.reversal(c04._Ren(rep, 'C09.R3', 'C02.R9'), ctx.facts(cfg), '' if cfg == 'default' else '[%s]' % cfg)
+    # ... and to the user's cones: the clean-up pass merges only genuine orthants into nonnegative cones (C05.R5 re-run)
+    from . import c05
+    for cfg in CONFIGS:
+        c05.input_normalisation(c04._Ren(rep, 'C05.R5', 'C02.R10'), ctx.facts(cfg), '' if cfg == 'default' else '[%s]' % cfg)
     from . import primitives
     primitives.vector_primitives(rep, ctx.facts('default'), ctx.eff('default'), '', 'C02.R7')
 
